@@ -351,6 +351,8 @@ T_TABLES = T("Tables", "indexOf_gen", "poolSize_gen", "valid_gen", "put_own_clas
 T_LEAF = T("Leaf", "set_cc_gen", "set_size_gen", "set_bc_gen", "set_bi_gen", "set_version_gen", "set_idx_gen", "set_idx_gen_nat", "get_idx_gen",
            "dbs_size_gen", "dbs_unc_gen", "dbs_word_gen",
            kind="the models' descriptor-flag setters/getters and block-size word equal the accessors regenerated from frame_gen.go (every argument; any previous value of the word)")
+T_STATES = T("States", "writer_next_gen", "reader_next_gen", "writer_init_gen", "reader_init_gen", "writer_closed", "reader_closed",
+             kind="the models' state transitions equal the writerStates / readerStates slices regenerated from writer.go / reader.go; closed, in range")
 T_POOL = T("Pool", "reach_inv", "get_size", "inv_put", "inv_get", "inv_drop", "put_foreign", "put_slice",
            kind="the shared block-buffer pools keep their size classes after every Get/Put/drop history (what the Reader's cap(b.data) bound rests on)")
 CR_FAM = dict(family="cr", variant="asm", kview=kview_w, nontrivial=nontrivial_sess,
@@ -398,7 +400,7 @@ PROPS = {
     "C09": dict(runs=[FW("fw", judge=j_c09), CR_FAM, FW("fwlife", judge=j_c09), dict(CMP, judge=j_c10)], theorems=T_C09 + T_C09leg + T_C18 + T_TABLES + T_LEAF),
     "C15": dict(runs=[FW("fwfail", judge=j_c15w), FR("frfail", judge=j_c15r)], theorems=T_C15 + T_C15r),
     "C16": dict(runs=[FR("fr", judge=j_c16)], theorems=T("C16", "c16_writeTo", "c16_read", "c16_read_no_error", kind=_K64)),
-    "C17": dict(runs=[FW("fwlife", judge=j_c17w, env={"VERIF_SCHED": "6"}), FR("fr", judge=j_c17r)], theorems=T_C17),
+    "C17": dict(runs=[FW("fwlife", judge=j_c17w, env={"VERIF_SCHED": "6"}), FR("fr", judge=j_c17r)], theorems=T_C17 + T_STATES),
     "C01": dict(runs=[dict(CMP, judge=j_c01)], theorems=T_C01rt + T_FAST + T_HC + T_OBJ),
     "C03": dict(runs=[dict(DEC_ASM, judge=j_c03), dict(DEC_GO, judge=j_c03), dict(GUARD_ASM, judge=j_c03), dict(GUARD_GO, judge=j_c03)], theorems=T("C04go", "c03_go") + T("C03asm", "c03_asm")),
     "C04": dict(runs=[dict(DEC_ASM, judge=j_c04), dict(DEC_GO, judge=j_c04)], theorems=T_GO + T_ASM),
